@@ -730,7 +730,7 @@ func (e *specEnv) evalCall(s *SpecExpr) (Term, types.Type) {
 			if v, ok := e.st.ghost["called:"+args[0].Val]; ok {
 				return v, intT
 			}
-			return intLit(0), intT
+			return x.ghostDefault(e.st, "called:"+args[0].Val), intT
 		case "lastErr":
 			if args[0].Kind != "str" {
 				e.fail("lastErr() needs a string literal")
@@ -738,7 +738,7 @@ func (e *specEnv) evalCall(s *SpecExpr) (Term, types.Type) {
 			if v, ok := e.st.ghost["lasterr:"+args[0].Val]; ok {
 				return v, types.Universe.Lookup("error").Type()
 			}
-			return intLit(-1), types.Universe.Lookup("error").Type() // never called: not nil
+			return x.ghostDefault(e.st, "lasterr:"+args[0].Val), types.Universe.Lookup("error").Type() // never called: not nil
 		case "exited":
 			return e.ghostBool("exited"), boolT
 		}
